@@ -107,6 +107,16 @@ CHECKS = {
         "contains every original node exactly once with its label, contains the inserted tree (its open leaves may be filled), and is internally consistent.",
    note="Trusted: validator / traversal in the harness. [decoder]. Outside: larger trees, insert_trees.",
    design="§3 C13"),
+ "C01": dict(level="other", technique="CrossHair (z3): solver-driven exhaustive enumeration of a bounded configuration space (constraint x solver settings x seed); the real ISLaSolver run per configuration, solutions judged by the reference semantics",
+   text=BOUNDED + "The solve loop is a heap algorithm around Z3 calls and cannot be encoded; what is decided is: for EVERY configuration of a bounded space (16 constraints x free/SMT instantiation limits x optimized queries x unique trees x "
+        "insertion methods x unsat support x seed) every solution of the first 3/8 solve() calls is closed, a derivation tree of the grammar, re-parses and satisfies the constraint under the reference semantics.",
+   note="Trusted: checks/refsem.py, validator. [decoder]. Configurations whose first call exceeds a wall-clock guard are abandoned and listed. Outside: other grammars/constraints/settings, longer solution sequences.",
+   design="§3 C01"),
+ "C02": dict(level="other", technique="CrossHair (z3): solver-driven exhaustive enumeration of the configuration space and of clock increment vectors; the real ISLaSolver.solve() with isla.solver's clock replaced by a stub",
+   text=BOUNDED + "For every configuration of the C01 space: each solve() call returns a tree or raises StopIteration/TimeoutError, never anything else, and after the first of these every later call raises the same; with timeout_seconds set "
+        "the clock is a stub advancing by 0/0.6/7 s per reading according to every increment vector of length <= 2, so the timeout strikes at every reachable point.",
+   note="Trusted: clock stub. [decoder]. Known findings: RuntimeError for a negative numeric model value (optimized queries), AssertionError for numeric quantifiers without optimized queries.",
+   design="§3 C02"),
 }
 NOT_APPLICABLE = {
  "C21": "needs end-to-end solve() on the shipped formalizations plus external validators (docutils, XML parser): the solver loop is a heap algorithm around Z3 calls that no engine here can encode, and the validators are not solver objects",
